@@ -232,6 +232,14 @@ func scenariosFor(tier string) []vrt.Scenario {
 		s.Bound = b
 		out = append(out, s)
 	}
+	// intervals that are not whole milliseconds (and below one millisecond)
+	for _, iv := range []time.Duration{1900 * time.Microsecond, 2500 * time.Microsecond, 700 * time.Microsecond, 100900 * time.Microsecond, 1500 * time.Nanosecond} {
+		s := scenario(cfg{interval: iv, length: iv*9/2 + 1, profile: []int{2, 0, 1, 3}})
+		s.Bound = b
+		s.Delay = true
+		s.Name += "/policy=delay"
+		out = append(out, s)
+	}
 	for _, iv := range intervals {
 		lengths := []time.Duration{iv / 2, iv, iv*5/2 + ms, 3*iv - ms}
 		if tier == "quick" {
